@@ -12,6 +12,7 @@ CONSTANTS
   MaxMember = 2
   MaxTimeout = 1
   MaxDrop = 0
+  MaxDup = 0
   MaxMisc = 0
   MaxAppend = 2
   Trailing = 1
